@@ -330,3 +330,17 @@ type nowValidator struct{ inner disruption.Validator }
 func (v nowValidator) Validate(ctx context.Context, cmd disruption.Command, _ time.Duration) (disruption.Command, error) {
 	return v.inner.Validate(ctx, cmd, 0)
 }
+
+// rebuildCatalog replaces the provider's instance types by fresh objects built from a modified copy of the catalog
+// (a provider returns fresh InstanceType values; the ones in use cache their available offerings on first use).
+func (w *world) rebuildCatalog(mod func(*itSpec)) {
+	w.cp.InstanceTypes = nil
+	for _, s := range w.spec.Catalog {
+		c := s
+		c.Offs = append([]offSpec(nil), s.Offs...)
+		mod(&c)
+		it := mkInstanceType(c)
+		w.its[c.Name] = it
+		w.cp.InstanceTypes = append(w.cp.InstanceTypes, it)
+	}
+}
